@@ -145,6 +145,11 @@ static void run(const Script& s) {
                 do_assign(vars[a], vars[b]);
                 try { if (vars[a]->serialize() != vars[b]->serialize()) extra = " NEQ"; } catch (std::exception&) {}
             }
+            else if (a < NV && a == b && vars[a]) {
+                // self-assignment through a reference: must leave the object (and everything below it) as it was, which is
+                // what the model's unchanged state says
+                do_assign(vars[a], vars[a]);
+            }
         }
         else if (op == "move") { if (a < NV && b < NV && !vars[a] && vars[b]) { vars[a] = do_movector(vars[b]); set_tag(vars[b], 0); } }
         else if (op == "massign") { if (a < NV && b < NV && vars[a] && vars[b] && a != b && cls_of(vars[a]) == cls_of(vars[b])) { do_massign(vars[a], vars[b]); set_tag(vars[b], 0); } }
